@@ -57,3 +57,10 @@ reg("C37", "model_checking", "TLA+ spec DevReg (naive scan) model-checked with T
     "(error or not, registry size, devices that processed the telegram in order, devices_by_group_address) must equal the spec's naive scan.",
     "Trusted: TLC. Device.process is replaced by a recorder on each instance; group address sets are taken from Device.group_addresses().",
     "DESIGN.md section 5 C37")
+
+reg("C40", "model_checking", "TLA+ spec TravelCalc (integer ticks, estimate specified up to rounding) model-checked with TLC; trace validation of the real TravelCalculator on a tick clock",
+    "TravelCalc is model-checked with small travel times (an admissible estimate always exists, stays between last known position and target); thousands of random "
+    "command/report/stop/query histories with clock advances 0, one tick, fractions of and beyond the travel time run on the real class with internal scalar state logged after each call, "
+    "and every trace must be a behaviour of the spec (no call raises, estimate within one unit of the exact rational value, monotone, exactly the target once the travel time has elapsed).",
+    "Trusted: TLC (32-bit integers: 1 tick = 1/1024 s, travel times <= 60 s). time.time is replaced by a tick clock.",
+    "DESIGN.md section 5 C40")
